@@ -8,6 +8,7 @@ package nsqd
 //   frames <hexstream>                      client-side reader: go-nsq ReadResponse + UnpackResponse in a loop
 //   mpub <maxMsg> <maxBody> <hex>           readMPUB on a real topic
 //   textmpub <maxMsg> <maxBody> <hex>       HTTP POST /mpub (text mode) on an in-process nsqd; bodies read back
+//   hpub|hpubcl <maxMsg> <hex>              HTTP POST /pub (chunked | Content-Length); the enqueued body read back
 //   bufw <cap> (w<hex>|f)…                  bufio.Writer of that size over a sink
 //
 // Every case also carries a direct oracle (round trip on the implementation itself).
@@ -278,6 +279,59 @@ func (e *vfE1WireEnv) exec(line string) (string, string) {
 		}
 		e.hist["textmpub:ok"]++
 		return line, fmt.Sprintf("ok %d %s", len(got), vfE1HexList(got))
+	case "hpub", "hpubcl": // HTTP POST /pub, chunked ("hpub") or with a Content-Length ("hpubcl")
+		maxMsg, _ := strconv.ParseInt(w[1], 10, 64)
+		s := vfE1Unhex(w[2])
+		o2 := *e.nsqd.getOpts()
+		o2.MaxMsgSize = maxMsg
+		e.nsqd.swapOpts(&o2)
+		e.seq++
+		tname := fmt.Sprintf("vf_hpub_%d", e.seq)
+		var body io.Reader = bytes.NewReader(s)
+		if w[0] == "hpub" {
+			body = struct{ io.Reader }{body}
+		}
+		resp, err := http.Post(fmt.Sprintf("http://%s/pub?topic=%s", e.httpAddr, tname), "application/octet-stream", body)
+		if err != nil {
+			return line, "httperr:" + err.Error()
+		}
+		rb, _ := io.ReadAll(resp.Body)
+		resp.Body.Close()
+		topic := e.nsqd.GetTopic(tname)
+		var got [][]byte
+	drainp:
+		for {
+			select {
+			case m := <-topic.memoryMsgChan:
+				got = append(got, m.Body)
+			default:
+				break drainp
+			}
+		}
+		defer e.nsqd.DeleteExistingTopic(tname)
+		if resp.StatusCode != 200 {
+			if len(got) != 0 {
+				fail("/pub answered %d %s yet enqueued %d messages", resp.StatusCode, rb, len(got))
+			}
+			for _, code := range []string{"MSG_TOO_BIG", "MSG_EMPTY"} {
+				if strings.Contains(string(rb), code) {
+					e.hist["hpub:"+code]++
+					return line, code
+				}
+			}
+			return line, fmt.Sprintf("other:%d:%s", resp.StatusCode, rb)
+		}
+		// direct oracle: exactly the body sent was enqueued, once
+		if len(got) != 1 || !bytes.Equal(got[0], s) {
+			fail("/pub accepted a %d-byte body (max-msg-size %d) and enqueued %d message(s), first %d bytes long", len(s), maxMsg, len(got), func() int {
+				if len(got) > 0 {
+					return len(got[0])
+				}
+				return 0
+			}())
+		}
+		e.hist["hpub:ok"]++
+		return line, "ok " + vfE1HexList(got)
 	case "bufw":
 		capn, _ := strconv.Atoi(w[1])
 		var sink bytes.Buffer
@@ -372,7 +426,7 @@ func TestVerifWireCorr(t *testing.T) {
 		return []byte(fmt.Sprintf("%016x", r.Next()))
 	}
 	for i := 0; i < n; i++ {
-		switch k := r.Intn(20); {
+		switch k := r.Intn(21); {
 		case k < 4:
 			run(fmt.Sprintf("enc %d %d %s %s", ts(), att(), vfHex(id()), vfHex(vfE1Body(r, maxMsg))))
 		case k < 7: // decode: valid encodings, truncations, short and random buffers
@@ -497,6 +551,14 @@ func TestVerifWireCorr(t *testing.T) {
 				b = nil
 			}
 			run(fmt.Sprintf("%s %d %d %s", []string{"textmpub", "textmpubcl"}[r.Intn(2)], mm, mb, vfHex(b)))
+		case k < 19: // HTTP /pub body limits (chunked and Content-Length): 0, 1, max-1, max, max+1, beyond
+			mm := int64(50 + r.Intn(3000))
+			sz := []int{0, 1, int(mm) - 1, int(mm), int(mm) + 1, int(mm) + 2, 2*int(mm) + 7, r.Intn(int(mm) + 1)}[r.Intn(8)]
+			b := vfE1Body(r, sz)
+			if len(b) != sz && r.Intn(2) == 0 {
+				b = r.Bytes(sz)
+			}
+			run(fmt.Sprintf("%s %d %s", []string{"hpub", "hpubcl"}[r.Intn(2)], mm, vfHex(b)))
 		default: // bufio.Writer
 			capn := []int{1, 2, 16, 64, 100}[r.Intn(5)]
 			ops := []string{}
